@@ -210,7 +210,7 @@ func serverPart(run *vkit.Run) {
 		defer cancel()
 		mn, hs, err := newNet(2)
 		if err != nil {
-			run.Count("harness_errors", 1)
+			herr(run, "server:1")
 			return
 		}
 		defer mn.Close()
@@ -223,7 +223,7 @@ func serverPart(run *vkit.Run) {
 		}
 		srv := &certexchange.Server{NetworkName: netName, Host: hs[0], Store: cs}
 		if err := srv.Start(ctx); err != nil {
-			run.Count("harness_errors", 1)
+			herr(run, "server:2")
 			return
 		}
 		defer srv.Stop(context.Background()) //nolint:errcheck
@@ -245,7 +245,7 @@ func serverPart(run *vkit.Run) {
 					run.Inconclusive("watchdog")
 					return
 				}
-				run.Count("harness_errors", 1)
+				herr(run, "server:3")
 				continue
 			}
 			run.Eval(1)
@@ -266,4 +266,10 @@ func sortedKeys(m map[string]int64) []string {
 	}
 	sort.Strings(ks)
 	return ks
+}
+
+// herr records a harness-side failure (never a verdict about the property).
+func herr(run *vkit.Run, where string) {
+	run.Count("harness_errors", 1)
+	run.Count("harness_error_at_"+where, 1)
 }
